@@ -550,7 +550,7 @@ err_write:
 #endif
 	if ((rc == ENOSPC) || (rc == EFBIG)) {
 		rc = EMSGSIZE;
-	} else if ((errno != ENOMEM) && (errno != EMSGSIZE) && (errno != E2BIG) && (errno != EINVAL)) {
+	} else if ((rc != ENOMEM) && (rc != EMSGSIZE) && (rc != E2BIG) && (rc != EINVAL)) {
 		if (netwrite("451 4.3.0 error writing mail to queue\r\n"))
 			return errno;
 	}
